@@ -78,6 +78,9 @@ func init() {
 			Old: "\t\tpsigs, ok, err := getThresholdMatching(duty.Type, sigs, db.threshold)", New: "\t\tpsigs, ok, err := getThresholdMatching(duty.Type, sigs, db.threshold)\n\t\tpsigs = sigs"})
 	Link("C01", "C06", "(C06.D2) a stored unsigned datum is never replaced by conflicting data.", []string{"D2"})
 	Link("C01", "C10", "(C10.H1/H3) only verified partial signatures enter the node.", []string{"H1", "H3"})
+	// one signing root per duty rests on QBFT's value lock: a ROUND-CHANGE that drops the prepared certificate lets a later
+	// round decide a second value for the same duty.
+	Link("C01", "C02", "(C02.Q5) every ROUND-CHANGE carries the prepared round/value/justification of the sender (value lock across rounds).", []string{"Q5"})
 }
 
 func init() {
